@@ -3,6 +3,7 @@ package main
 import (
 	"fmt"
 	"go/token"
+	"go/types"
 
 	"golang.org/x/tools/go/ssa"
 )
@@ -170,7 +171,54 @@ func checkC20(c *Ctx, r *Report) {
 				}
 			}
 		}
-		// the res variables are evaluated only when such an address is present and the counter exists
+		// a counter is consulted (which may consume the probe slot) only when the request
+		// contains a public address of that counter's kind
+		gfs := callsIn(fa, "(*"+swarmP+".blackHoleDetector).getFilterState")
+		if len(gfs) < 2 {
+			r1.Fail("FilterAddrs: getFilterState per counter", fa.Pos(), "expected one evaluation per counter", "")
+		}
+		var boolPhis []*ssa.Phi
+		allInstrs(fa, func(in ssa.Instruction) {
+			if p, ok := in.(*ssa.Phi); ok && types.Identical(p.Type(), types.Typ[types.Bool]) {
+				boolPhis = append(boolPhis, p)
+			}
+		})
+		for _, g := range gfs {
+			fl, base := loadOfField(strip2(callArgs(g)[1]))
+			if fl == nil || fieldKeyOf(base, fl) != detT+"."+fl.Name() {
+				r1.Fail("FilterAddrs: getFilterState argument", instrPos(g.(ssa.Instruction)), "argument is not one of the detector's counters", "")
+				continue
+			}
+			code := pUDP
+			if fl.Name() == "ipv6" {
+				code = pIP6
+			}
+			ok := false
+			for _, p := range boolPhis {
+				w, _ := (&Cut{Fn: fa, Target: isInstr(g.(ssa.Instruction)), EdgeCut: edgeBool(isValue(p), true)}).Run(c)
+				if w != "" {
+					continue
+				}
+				es := phiEdgesWhere(p, func(v ssa.Value) bool { b, isC := constBool(v); return isC && b })
+				if len(es) == 0 {
+					continue
+				}
+				w1, _ := (&Cut{Fn: fa, TargetEdge: edgeSet(es), EdgeCut: edgeBool(isCallResult(0, "github.com/multiformats/go-multiaddr/net.IsPublicAddr"), true)}).Run(c)
+				w2, _ := (&Cut{Fn: fa, TargetEdge: edgeSet(es), EdgeCut: edgeBool(func(v ssa.Value) bool {
+					ci := isResultOfCall(v, 0, swarmP+".isProtocolAddr")
+					if ci == nil {
+						return false
+					}
+					n, isC := constInt(ci.Common().Args[1])
+					return isC && n == code
+				}, true)}).Run(c)
+				if w1 == "" && w2 == "" {
+					ok = true
+				}
+			}
+			r1.Check(ok, "FilterAddrs: "+fl.Name()+" counter consulted only when the request has a public address of that kind", instrPos(g.(ssa.Instruction)), len(boolPhis), "",
+				"requests with nothing to probe (private or other-kind addresses only) consume the probe slot / touch the counter", "")
+		}
 	}
 
 	// ---- R2 ---------------------------------------------------------------
@@ -222,6 +270,40 @@ func checkC20(c *Ctx, r *Report) {
 					return isCallTo(in, "(*"+swarmP+".BlackHoleSuccessCounter).updateState") || isFieldWrite(in, ctrT+".dialResults")
 				}}
 			r2.mustPass(rr, "RecordResult: [state==Blocked, success] every path resets before anything else", q, 2)
+		}
+		// eviction: the outcome read to adjust `successes` is the one dropped, i.e. it is
+		// read before the window is shortened
+		var trims, evictReads []ssa.Instruction
+		allInstrs(rr, func(in ssa.Instruction) {
+			if st, ok := in.(*ssa.Store); ok && isFieldWrite(in, ctrT+".dialResults") {
+				if sl, ok := strip2(st.Val).(*ssa.Slice); ok && sl.Low != nil {
+					trims = append(trims, in)
+				}
+			}
+			if ia, ok := in.(*ssa.IndexAddr); ok && isLoadOfField(ctrT + ".dialResults")(strip2(ia.X)) {
+				if n, isC := constInt(ia.Index); isC && n == 0 {
+					evictReads = append(evictReads, in)
+				}
+			}
+		})
+		if len(trims) != 1 || len(evictReads) != 1 {
+			r2.Fail("RecordResult: window eviction", rr.Pos(), "expected one read of dialResults[0] and one trimming assignment", "")
+		} else {
+			w, n := (&Cut{Fn: rr, From: trims, Target: inSet(evictReads)}).Run(c)
+			r2.Check(w == "", "RecordResult: evicted outcome is read before the window is shortened", instrPos(evictReads[0]), n+1, "", "successes is adjusted with the wrong (surviving) outcome", w)
+			// successes-- only past that read being true
+			var decs []ssa.Instruction
+			allInstrs(rr, func(in ssa.Instruction) {
+				if st, ok := in.(*ssa.Store); ok && isFieldWrite(in, ctrT+".successes") {
+					if b, ok := st.Val.(*ssa.BinOp); ok && b.Op == token.SUB {
+						decs = append(decs, in)
+					}
+				}
+			})
+			r2.guard(rr, "successes--", decs, "dialResults[0] (evicted) was a success", edgeBool(func(v ssa.Value) bool {
+				u, ok := v.(*ssa.UnOp)
+				return ok && u.Op == token.MUL && u.X == evictReads[0].(ssa.Value)
+			}, true), nil)
 		}
 		// every non-reset path ends in updateState
 		q := &Cut{Fn: rr, Target: func(in ssa.Instruction) bool { _, ok := in.(*ssa.Return); return ok },
